@@ -51,7 +51,7 @@ func genC22(t *rapid.T) c22Case {
 			Off: pick(t, "off", 0, 1, 100, 4095, 4096, 4097, 9000, rapid.IntRange(0, 12000).Draw(t, "roff")), Len: pick(t, "len", 0, 1, 7, 100, 4096, 5000), Fill: rapid.Byte().Draw(t, "fill"),
 			Stable: pick(t, "stable", uint32(nfsx.Unstable), nfsx.DataSync, nfsx.FileSync, nfsx.FileSync)}
 		if rapid.IntRange(0, 5).Draw(t, "fault") == 0 {
-			op.FaultAt, op.FaultErr = rapid.IntRange(1, 6).Draw(t, "fault_at"), pick(t, "fault_err", 0, 0, 8, 9, 15, 17, 33)
+			op.FaultAt, op.FaultErr = rapid.IntRange(1, 10).Draw(t, "fault_at"), pick(t, "fault_err", 0, 0, 8, 9, 15, 17, 33)
 		}
 		c.Ops = append(c.Ops, op)
 	}
